@@ -85,6 +85,11 @@ func genCore(repo string) (src string, notes []string, err error) {
 		"x/sequencer/keeper/msg_server_create.go", "x/sequencer/keeper/msg_server_kick_proposer.go",
 		"x/sequencer/keeper/msg_server_update.go", "x/sequencer/keeper/get_and_set.go", "x/sequencer/keeper/sequencer.go")
 	sm := loadExisting(&notes, repo, "x/sequencer/module.go")
+	// the standalone governance punishment (legacy gov route): handler + proposal content
+	sp := loadExisting(&notes, repo, "x/sequencer/proposal_handler.go")
+	// parameter updates (Core.Op.setSeqParams)
+	spar := loadExisting(&notes, repo, "x/sequencer/keeper/msg_server_update_params.go", "x/sequencer/keeper/params.go")
+	stp := loadExisting(&notes, repo, "x/sequencer/types/proposal_punish_sequencer.go")
 	st := loadExisting(&notes, repo,
 		"x/sequencer/types/sequencer.go", "x/sequencer/types/params.go", "x/sequencer/types/msg_bond.go",
 		"x/sequencer/types/msg_create.go", "x/sequencer/types/operating_status.pb.go", "x/sequencer/types/status.go")
@@ -318,6 +323,25 @@ func genCore(repo string) (src string, notes []string, err error) {
 			{"Keeper.NewSequencer", "newSequencer"},
 		}},
 		{sm, []coreFn{{"AppModule.BeginBlock", "sequencerBeginBlock"}}},
+		{sp, []coreFn{
+			{"NewSequencerProposalHandler", "newSequencerProposalHandler"},
+			{"HandlePunishSequencerProposal", "handlePunishSequencerProposal"},
+		}},
+		{spar, []coreFn{
+			{"msgServer.UpdateParams", "msgUpdateSeqParams"},
+			{"Keeper.ValidateParams", "validateSeqParams"},
+			{"Keeper.SetParams", "setSeqParamsK"},
+		}},
+		{st, []coreFn{
+			{"Params.ValidateBasic", "seqParamsValidateBasic"},
+			{"validateTime", "seqParamsValidateTime"},
+			{"validateLivenessSlashMultiplier", "seqParamsValidateMultiplier"},
+		}},
+		{stp, []coreFn{
+			{"PunishSequencerProposal.ProposalRoute", "punishProposalRoute"},
+			{"PunishSequencerProposal.ValidateBasic", "punishProposalValidateBasic"},
+			{"PunishSequencerProposal.MustRewardee", "punishProposalMustRewardee"},
+		}},
 		{st, []coreFn{
 			{"Sequencer.SetOptedIn", "seqSetOptedIn"},
 			{"Sequencer.Sentinel", "seqSentinelL"},
